@@ -35,7 +35,8 @@ type scen struct {
 	// a choice at every tick): a stop request then finds the pipeline paused by the disk watchdog
 	DiskFullFrom int `json:"disk_full_from,omitempty"`
 
-	Scripts []string `json:"scripts"` // one per controller, over {P,R}
+	Anchors bool     `json:"anchors,omitempty"` // the page has anchors and --max-hops is 1: outlinks flow to the finisher
+	Scripts []string `json:"scripts"`           // one per controller, over {P,R}
 	Stop    bool     `json:"stop"`    // a shutdown thread runs the stop sequence once the controllers are done
 	Seeds   int      `json:"seeds"`
 	Workers int      `json:"workers"`
@@ -48,6 +49,9 @@ func (s *scen) name() string {
 			return fmt.Sprintf("watchers disk-full-from=%ds stop-at=%ds operator-at=%ds w%d", s.DiskFullFrom, s.StopAt, s.Operator, s.Workers)
 		}
 		return fmt.Sprintf("watchers stop-at=%ds operator-at=%ds w%d", s.StopAt, s.Operator, s.Workers)
+	}
+	if s.Anchors {
+		return fmt.Sprintf("scripts=%s stop=%v seeds=%d w%d anchors", strings.Join(s.Scripts, "|"), s.Stop, s.Seeds, s.Workers)
 	}
 	return fmt.Sprintf("scripts=%s stop=%v seeds=%d w%d", strings.Join(s.Scripts, "|"), s.Stop, s.Seeds, s.Workers)
 }
@@ -81,8 +85,14 @@ func scenario(s *scen) *vsched.Scenario {
 	sc := &vsched.Scenario{Name: s.name()}
 	d := site()
 	d.Seeds = d.Seeds[:s.Seeds]
+	hops := 0
+	if s.Anchors {
+		// the page also has anchors: with --max-hops 1 the postprocessor feeds them downstream one by one
+		d.Nodes[0].Links = []string{H + "/next1", "http://other.example/next2"}
+		hops = 1
+	}
 	sc.Setup = func(x *vsched.Exec) {
-		w = world.New(world.Options{Workers: s.Workers, MaxConcurrentAssets: 1, MaxRetry: 0, MaxRedirect: 1, AsyncWARC: s.Watchers, Tmp: os.Getenv("VERIF_TMP")}, d.Build())
+		w = world.New(world.Options{Workers: s.Workers, MaxConcurrentAssets: 1, MaxRetry: 0, MaxRedirect: 1, MaxHops: hops, AsyncWARC: s.Watchers, Tmp: os.Getenv("VERIF_TMP")}, d.Build())
 		o = &obs{}
 		if s.Watchers {
 			watchers.VerifC14Reset()
@@ -273,6 +283,9 @@ func oracle(s *scen, x *vsched.Exec, w *world.World, o *obs) error {
 			}
 			return fmt.Errorf("worker-blocked: %s worker is parked at the resume handshake although the pipeline is not paused", stageOf(t.Name))
 		}
+		if isWorker(t.Name) && paused && strings.Contains(t.Point, "outputCh") {
+			continue // back-pressure: the stage downstream is paused, this worker holds the item until it is resumed
+		}
 		return fmt.Errorf("thread-blocked: %s is blocked at %s", t.Name, t.Point)
 	}
 	// (2) a worker that acknowledged a pause takes no work until it is resumed
@@ -398,6 +411,11 @@ func scenarios(tier string) []scen {
 			out = append(out, scen{Scripts: []string{a}, Seeds: 1, Workers: 1, P: P + 1})
 		}
 	}
+	// a page with anchors (outlinks are fed downstream one by one): single controller, scripts up to length 2, and stop while paused
+	for _, a := range []string{"P", "PR", "RP", "PP"} {
+		out = append(out, scen{Scripts: []string{a}, Seeds: 1, Workers: 1, P: P, Anchors: true})
+	}
+	out = append(out, scen{Scripts: []string{"P"}, Stop: true, Seeds: 1, Workers: 1, P: P, Anchors: true})
 	// the real watchdogs and the operator as independent controllers, then the real stop order
 	for _, stopAt := range []int{4, 12, 23} {
 		for _, op := range []int{0, 6, 11} {
